@@ -138,3 +138,87 @@ def reconcile(crates):
                 c["fns"][k]["renamed_from_source_name"] = e.rsplit("::", 1)[1]
                 c["fns"][k]["name"] = k.rsplit("::", 1)[1]
     return mp
+
+
+# ---------------------------------------------------------------------------------------------------------------- fields
+ADT_TABLE = os.path.join(os.path.dirname(__file__), "adt_table.json")
+
+
+def adt_table_of(crates):
+    """struct key -> [(field name, type)] in declaration order (structs of the workspace only)"""
+    out = {}
+    for c in crates:
+        for k, a in c["adts"].items():
+            if a.get("kind") != "Struct" or len(a.get("variants") or []) != 1:
+                continue
+            out[k] = [[f_.get("name"), f_.get("ty")] for f_ in a["variants"][0].get("fields") or []]
+    return out
+
+
+def reconcile_fields(crates):
+    """a struct of the pinned tree whose fields have, position by position, the same types but other names was subject to a
+    field rename: the facts are rewritten to the pinned field names (HIR field accesses, struct literals / patterns, MIR
+    projections, the definition).  -> {struct key: {new name: old name}}"""
+    if not os.path.exists(ADT_TABLE):
+        return {}
+    pinned = json.load(open(ADT_TABLE))
+    cur = adt_table_of(crates)
+    mp = {}
+    for k, fields in cur.items():
+        old = pinned.get(k)
+        if not old or len(old) != len(fields) or [n for n, _ in old] == [n for n, _ in fields]:
+            continue
+        if [t for _, t in old] != [t for _, t in fields]:
+            continue
+        # only a pure renaming: the names that stayed are in place, the new names are not pinned names of this struct
+        oldnames = {n for n, _ in old}
+        m = {}
+        ok = True
+        for (o, _), (n, _) in zip(old, fields):
+            if o != n:
+                if n in oldnames:
+                    ok = False      # a permutation of fields, not a rename
+                m[n] = o
+        if ok and m:
+            mp[k] = m
+    if not mp:
+        return {}
+    tails = {k.rsplit("::", 1)[-1]: k for k in mp}
+
+    def go(x):
+        if isinstance(x, dict):
+            kk = x.get("k")
+            if kk == "Field" and x.get("adt") in mp and x.get("name") in mp[x["adt"]]:
+                x["name"] = mp[x["adt"]][x["name"]]
+            elif "f" in x and x.get("adt") in mp and x.get("f") in mp[x["adt"]]:
+                x["f"] = mp[x["adt"]][x["f"]]
+            elif kk == "Struct" and isinstance(x.get("fields"), list):
+                key = x.get("path") if x.get("path") in mp else None
+                if key is None and isinstance(x.get("ty"), str):
+                    # `Self { .. }` / generic structs: the literal's type, without its generic arguments
+                    t = x["ty"].split("<", 1)[0]
+                    for cand in (t, t.replace("crate::", crate[0] + "::", 1)):
+                        if cand in mp:
+                            key = cand
+                if key:
+                    for fl in x["fields"]:
+                        if isinstance(fl, dict) and fl.get("name") in mp[key]:
+                            fl["name"] = mp[key][fl["name"]]
+            for v in x.values():
+                if isinstance(v, (dict, list)):
+                    go(v)
+        elif isinstance(x, list):
+            for v in x:
+                if isinstance(v, (dict, list)):
+                    go(v)
+    crate = [None]
+    for c in crates:
+        crate[0] = c.get("crate") or c.get("pkg")
+        for k, a in c["adts"].items():
+            if k in mp:
+                for f_ in a["variants"][0]["fields"]:
+                    if f_.get("name") in mp[k]:
+                        f_["name"] = mp[k][f_["name"]]
+        go(c["fns"])
+        go(c.get("statics", {}))
+    return mp
